@@ -181,19 +181,17 @@ class Gen:
     def gen_pred(self, d, depth=0, avoid_pk=True):
         r = self.r
         cand = [i for i, c in enumerate(d.cols) if not (avoid_pk and c[3])]
-        # a constant `true` only at the top (= no WHERE clause): nested under AND/OR it sends the
-        # optimizer into a very long saturation (`(true or a < 7) or (a < 9 and a <= 5)` does not come
-        # back within 40 s on either engine - C17/C01's business, reported to the lead)
-        if not cand or (depth == 0 and r.random() < 0.12):
+        # constant `true`, also nested under AND/OR/NOT (`(true or a < 7) or (a < 9 and a <= 5)` used to
+        # send the optimizer into an endless saturation; repaired by repository commit 27a6bc9)
+        if not cand or r.random() < (0.12 if depth == 0 else 0.06):
             return ("true",)
         x = r.random()
         if depth < 2 and x < 0.25:
             return (r.choice(["and", "or"]), self.gen_pred(d, depth + 1, avoid_pk), self.gen_pred(d, depth + 1, avoid_pk))
         if depth < 2 and x < 0.3:
-            # NOT only over an atom: `not ((b < -2) and (b > 2))` deletes rows whose b is NULL on both
-            # engines (the optimizer folds the contradictory range to false ignoring NULL: C01/C14's
-            # finding, not a storage defect) - reported to the lead, kept out of the storage checks
-            return ("not", self.gen_pred(d, 2, avoid_pk))
+            # NOT over compound predicates too (`not ((b < -2) and (b > 2))` used to delete rows whose b
+            # is NULL: NULL-unsound simplification rules, removed by repository commit 9930474)
+            return ("not", self.gen_pred(d, depth + 1, avoid_pk))
         i = r.choice(cand)
         ty = d.cols[i][1]
         if x < 0.4:
@@ -454,7 +452,7 @@ def canon_tabs(txt):
     return ";".join("%s=%s" % (x.partition("=")[0], canon_bag_text(x.partition("=")[2])) for x in txt.split(";") if x)
 
 
-def canon_manifest(txt, rename=None):
+def canon_manifest(txt, rename=None, rename_av=None):
     """Canonical form of a printed manifest: per transaction, table ops in order, the other
     records sorted.  Which DV id goes to which row-set of one DELETE follows hash-map order in the
     implementation, so `AddDV` records are compared as (row-sets touched, SET of ids allocated) - the
@@ -477,7 +475,10 @@ def canon_manifest(txt, rename=None):
         tab = [x for x in t if x[0] in "CD" and not x.startswith("DR") and not x.startswith("DV")]
         rest = sorted(x for x in t if x.startswith("AR") or x.startswith("DR"))
         adds = sorted(x.rsplit(".", 1)[0] for x in t if x.startswith("AV:"))
-        add_ids = sorted(int(x.rsplit(".", 1)[1]) for x in t if x.startswith("AV:"))
+        # ids of DVs that already existed before this step (a rewritten manifest lists the survivors,
+        # and which ids survive a compaction follows the hash-order assignment) are renamed through the
+        # pairing; ids allocated by this step stay raw
+        add_ids = sorted(int((rename_av or {}).get(x[3:], x[3:]).rsplit(".", 1)[1]) for x in t if x.startswith("AV:"))
         dels = [x[3:] for x in t if x.startswith("DV:")]
         if rename:
             dels = [rename.get(x, x) for x in dels]
@@ -683,6 +684,7 @@ def compare_hist(h, impl, model):
             # which DV id goes to which row-set of one DELETE follows hash-map order in the
             # implementation: pair the DVs that are new in this step by their row-set and carry
             # the renaming (impl "t.r.id" -> model "t.r.id") through the rest of the history
+            dvmap_before = dict(dvmap)
             new_i = [r[3:] for r in i.get("man", "").split() if r.startswith("AV:") and r[3:] not in dvmap]
             new_m = [r[3:] for r in m.get("man", "").split() if r.startswith("AV:") and r[3:] not in dvmap.values()]
             by_rs = {}
@@ -694,7 +696,7 @@ def compare_hist(h, impl, model):
                     dvmap[x] = cands.pop(0)
             for f, c in FIELDS:
                 if f == "man":
-                    a, b = canon_manifest(i.get(f, ""), dvmap), canon_manifest(m.get(f, ""))
+                    a, b = canon_manifest(i.get(f, ""), dvmap, dvmap_before), canon_manifest(m.get(f, ""))
                 elif f in ("dv", "phys"):
                     a, b = canon_positions(i.get(f, ""), keyed), canon_positions(m.get(f, ""), keyed)
                 else:
